@@ -116,8 +116,11 @@ class CtlLoop(asyncio.SelectorEventLoop):
             # nothing ready: is a thread (to_thread / executor) possibly about to wake us up?
             import threading
             if threading.active_count() > 1 and getattr(self, 'real_threads', False):
-                event_list = self._selector.select(0.001)
-                self._process_events(event_list)
+                for _ in range(200):      # give worker threads up to 0.2 s of real time before jumping the clock
+                    event_list = self._selector.select(0.001)
+                    self._process_events(event_list)
+                    if self._ready or threading.active_count() <= 1:
+                        break
             if not [h for h in self._ready if not h._cancelled]:
                 self._vtime = max(self._vtime, self._scheduled[0]._when)
         end_time = self.time() + self._clock_resolution
@@ -149,8 +152,9 @@ class CtlLoop(asyncio.SelectorEventLoop):
 
 
 def run(coro_fn: Callable[[], Any], chooser: Callable[[int], int],
-        on_step: Optional[Callable[[], None]] = None) -> Any:
+        on_step: Optional[Callable[[], None]] = None, real_threads: bool = False) -> Any:
     loop = CtlLoop(chooser, on_step)
+    loop.real_threads = real_threads   # worker threads (to_thread) may complete: do not jump the clock past them
     asyncio.set_event_loop(loop)
     try:
         return loop.run_until_complete(coro_fn())
